@@ -281,7 +281,7 @@ def per_ip_limit(ob, tier):
             nodes += ex2.stats["nodes"]
             r2 = [e for e in ev2 if e.kind == "return"]
             c0 = ex2.initial.get("(*_2)")
-            caps = [v for k, v in ex2.initial.items() if re.match(r"^\(\*_\d+\)$", k) and k != "(*_2)"]
+            caps = [v for k, v in ex2.initial.items() if re.match(r"^\(\*_\d+(\.\d+)?\)$", k) and k != "(*_2)"]
             if len(r2) != 1 or c0 is None or len(caps) != 1:
                 problems.append("count-test closure: shape (returns=%d count=%s captures=%d)" % (len(r2), c0, len(caps)))
             else:
